@@ -221,13 +221,15 @@ func famEntryJSON(x *lc) bool {
 // ---------------------------------------------------------------------------------------------
 // family 2: receiver history
 
+// "grown-receiver": value j with one more element in every container (one more row, polynomial, digit, key ...)
+// than any encoding of j has, so that the receiver is larger than the incoming object at every nesting level.
 // "decoded-two": (thorough) a zero value that decoded value j, then value k, for all ordered pairs
-var historyKinds = []string{"fresh", "constructed-other", "decoded-other", "decoded-two"}
+var historyKinds = []string{"fresh", "constructed-other", "decoded-other", "grown-receiver", "decoded-two"}
 
 func famReceiver(t *lc) {
-	nh := 3
+	nh := 4
 	if t.c.Tier == "thorough" {
-		nh = 4
+		nh = 5
 	}
 	h := t.c.Choose(nh, "receiver-history")
 	t.c.Cover("history", historyKinds[h])
@@ -263,7 +265,7 @@ func receiverValue(x *lc, h int) (evals, bad int) {
 		}
 		// every catalogue value of the type (the same one included) as the receiver's previous content
 		nprev := len(x.e.vals)
-		if h == 3 {
+		if h == 4 {
 			nprev *= nprev
 		}
 		for jk := 0; jk < nprev; jk++ {
@@ -273,6 +275,10 @@ func receiverValue(x *lc, h int) (evals, bad int) {
 			if h == 1 {
 				recv = build(x.seed, x.e, j)
 			} else if h == 3 {
+				how = "grown from"
+				recv = build(x.seed, x.e, j)
+				grow(recv)
+			} else if h == 4 {
 				k := jk / len(x.e.vals)
 				how = fmt.Sprintf("having decoded [%s] and then", x.e.vals[k].label)
 				refk, okk := original(x.seed, x.e, k).ref(d)
